@@ -57,7 +57,7 @@ CHECKS = {
         engine="bfs+sched",
         technique="explicit-state BFS over submit/batch/poll/start/finish/fail/kill histories with parked task bodies on both backends (from the empty and from seeded non-initial states) + deviation-bounded schedule exploration of two poller+worker actors with the RUNNING-per-key invariant evaluated on the visible concrete state at every scheduling point",
         text="Histories: per (TASK|ARGUMENTS|KEYS) x reroute option, BFS (depth 4/5 from the empty history, 2/3 from 5 seeded states such as 'one running, one queued', 'retry behind a pending one', 'rerouted behind a pending one') over single and batch submissions, polls of two runners, start (body parked in a real thread so RUNNING is a state), finish, retriable failure, kill-and-reroute; results and read-outs compared between the two backends; on the real state: <= 1 RUNNING per key, polls never raise, what a poll took and did not hand out is CONCURRENCY_CONTROLLED_FINAL or re-queued available, nothing is blocked or handed out against the same-key rule. Schedules: two poller+worker actors over same-key / different-key / already-both-PENDING invocations, all schedules with <= 1 (2) deviations, invariant read from the records dict / a separate SQLite connection at every scheduling point.",
-        note="Nine recorded findings (known_findings.json): a blocked RETRY or REROUTED invocation makes the poll raise because the documented lifecycle lacks the edge. Trigger-launched submissions use the single-call path and are not enumerated separately. History writers run last here (C10 explores them).",
+        note="27 recorded findings (known_findings.json; 9 of them reachable in the quick tier): a blocked RETRY or REROUTED invocation makes the poll raise because the documented lifecycle lacks the edge. Trigger-launched submissions use the single-call path and are not enumerated separately. History writers run last here (C10 explores them).",
         design_ref="§2 C06",
     ),
     "C07": dict(
@@ -134,7 +134,7 @@ CHECKS["C11"] = dict(
     engine="sched",
     technique="whole-runner simulation of the real ThreadRunner.run() under the controlled scheduler in virtual time with the stop request injected at every scheduling point of a reference run (fault-point enumeration), thorough: plus all single-deviation schedules around selected stop points",
     text="8 workloads (two independent, parent-child, retrying, parent+group, mix, and three with bodies that take virtual time so that task threads are alive when the stop arrives) x {memory, SQLite} x {1, 2} slots: a reference run executes the workload to completion; then one run per scheduling point between the end of on_start and completion with stop_runner_loop() injected exactly there (2800 stop points in quick; SQLite every third point, thorough every point). Judged on a snapshot taken at the instant run() returns: every invocation the runner claimed is final, or available + ownerless + queued; nothing PENDING/RUNNING/KILLED under the runner id; run() returns before the 30 s virtual horizon (no recovery timeouts involved).",
-    note="Four recorded findings (known_findings.json): stop never completes while a task thread waits for a sub-invocation nobody runs. Real OS signals are not delivered (the injected call is what the handler calls); process-based runners are outside the thread-level scheduler.",
+    note="Five recorded findings (known_findings.json): stop never completes while a task thread waits for a sub-invocation nobody runs. Real OS signals are not delivered (the injected call is what the handler calls); process-based runners are outside the thread-level scheduler.",
     design_ref="§2 C11",
 )
 
@@ -142,7 +142,7 @@ CHECKS["C03"] = dict(
     engine="crash",
     technique="crash-point enumeration: the victim's operation is recorded effect by effect, then re-run with a hard crash before and after every backend effect, followed by clock advance, the real recovery task bodies and a draining survivor; end state and body completions judged",
     text="14 scenarios (client single / batch call after an accepted one, runner claiming 2 messages, claim through the blocking path, worker run to success (with and without a heartbeat ever sent) / failure / retry-then-success, concurrency-controlled reroute, kill-and-reroute, the real PersistentProcessRunner worker main and the real ProcessRunner loop iteration polling a blocked invocation in front of a runnable one, pending recovery of 2, running recovery of 2) x {memory (worker-thread death), SQLite (separate app object per process)}: every effect of the victim (queue push/pop, status write, register, argument index, retry counter, wait-graph write/release, result/exception write, history, upsert) x {before, after} = 414 crash runs + fault-free runs; afterwards 3 rounds of (clock +11 min, recover_pending_invocations and recover_running_invocations bodies under a surviving runner, drain). Every accepted invocation must be final and its body completed >= 1 time; the position of a stranded invocation at the crash instant is classified.",
-    note="18 recorded findings (known_findings.json), one per stranding window: message popped but not yet claimed; status RETRY/REROUTED written but not yet pushed; KILLED / CONCURRENCY_CONTROLLED / *_RECOVERY written and the writer dies. Crash granularity = one backend effect (SQLite's own atomicity trusted); survivors run sequentially; no real process death or OS signals.",
+    note="32 recorded findings (known_findings.json; 18 + 14 in the two runner-loop scenarios), one per stranding window; SQLite additionally: every effect in turn finds the database locked for good while the process lives on (storage-error points, judged against the crash point before the same effect). Windows: message popped but not yet claimed; status RETRY/REROUTED written but not yet pushed; KILLED / CONCURRENCY_CONTROLLED / *_RECOVERY written and the writer dies. Crash granularity = one backend effect (SQLite's own atomicity trusted); survivors run sequentially; no real process death or OS signals.",
     design_ref="§2 C03",
 )
 
